@@ -11,6 +11,7 @@ import itertools
 import multiprocessing
 import os
 import re
+import shutil
 import tempfile
 import time
 import warnings
@@ -290,8 +291,9 @@ def _has_box(v):
 
 # ------------------------------------------------------------------ crash-contained execution
 
-def _child(conn, chunk, maxlen, seed, start):
-    os.chdir(tempfile.mkdtemp(prefix="c15_"))
+def _child(conn, chunk, maxlen, seed, start, scratch):
+    # file-writing functions of the wrapped namespace (save, savetxt, tofile ...) land in a private directory that the parent removes
+    os.chdir(scratch)
     lib()
     for i in range(start, len(chunk)):
         conn.send(("start", i))
@@ -314,10 +316,11 @@ def run_chunks(chunks, maxlen, seed, ncpu, per_item_timeout):
         while pending and len(active) < ncpu:
             ci, start = pending.pop(0)
             pc, cc = ctx.Pipe(duplex=False)
-            p = ctx.Process(target=_child, args=(cc, chunks[ci], maxlen, seed, start))
+            scratch = tempfile.mkdtemp(prefix="c15_")
+            p = ctx.Process(target=_child, args=(cc, chunks[ci], maxlen, seed, start, scratch))
             p.start()
             cc.close()
-            active[ci] = dict(p=p, conn=pc, cur=start, t=time.time())
+            active[ci] = dict(p=p, conn=pc, cur=start, t=time.time(), scratch=scratch)
         for ci, st in list(active.items()):
             finished = False
             try:
@@ -338,6 +341,7 @@ def run_chunks(chunks, maxlen, seed, ncpu, per_item_timeout):
                 if hung and not finished:
                     st["p"].kill()
                 st["p"].join(1)
+                shutil.rmtree(st["scratch"], ignore_errors=True)
                 del active[ci]
                 if not finished and st["cur"] < len(chunks[ci]) and (ci, st["cur"]) not in results:
                     skipped.append((chunks[ci][st["cur"]], "numpy-timeout" if hung else "numpy-crash"))
